@@ -1,6 +1,7 @@
 package checks
 
 import (
+	"encoding/base64"
 	"encoding/json"
 	"errors"
 	"fmt"
@@ -29,15 +30,28 @@ type staticCase struct {
 	Fault      string `json:"fault,omitempty"`             // "" | open | stat | index-open | index-stat
 	Method     string `json:"method"`
 	Path       core.B `json:"path"`
-	INM        string `json:"if_none_match,omitempty"` // "" | match | other
+	INM        string `json:"if_none_match,omitempty"` // "" | match | other | formula (the tag the middleware's own formula yields for whatever the request path denotes - a file: its real tag; a directory: a tag no response ever carried, which must not match anything)
 	Logging    bool   `json:"enable_logging,omitempty"`
 	Query      string `json:"raw_query,omitempty"`                                // the request also carries a query string (irrelevant to what is served or where a directory is redirected to)
+	IOFS       bool   `json:"filesystem_is_an_io_fs,omitempty"`                   // FileSystem is http.FS(os.DirFS(dir)) instead of http.Dir(dir): names with empty, "." or ".." elements are not valid there and cannot be opened
 	DefaultDir bool   `json:"directory_option_unset,omitempty"`                   // neither Directory nor FileSystem given: the documented default "public" (relative to the working directory, which is the fixture root) is served
 	Spread     bool   `json:"options_passed_as_slice_then_overwritten,omitempty"` // Static(slice...) and the caller reuses the slice afterwards: the middleware keeps the options it was created with
 }
 
 func init() {
 	register(&Check{ID: "C16", Run: runC16, Replay: func(w *core.W, kind string, raw json.RawMessage) {
+		if kind == "volatile" {
+			var vc volatileCase
+			if err := json.Unmarshal(raw, &vc); err != nil {
+				w.R.Inconclusive("replay case does not decode: " + err.Error())
+				return
+			}
+			fx := newFixture()
+			defer fx.remove()
+			w.Begin("volatile", &vc)
+			judgeVolatile(w, fx, &vc)
+			return
+		}
 		var c staticCase
 		if err := json.Unmarshal(raw, &c); err != nil {
 			w.R.Inconclusive("replay case does not decode: " + err.Error())
@@ -125,7 +139,7 @@ type statFailFile struct{ http.File }
 func (statFailFile) Stat() (fs.FileInfo, error) { return nil, errors.New("injected stat failure") }
 
 func (f faultyFS) Open(name string) (http.File, error) {
-	isIndex := path.Base(path.Clean("/"+name)) == f.index // the file the name denotes, however it is spelt
+	isIndex := isIndexName(path.Clean("/"+name), f.index) // the file the name denotes, however it is spelt
 	switch f.mode {
 	case "open":
 		return nil, errors.New("injected open failure")
@@ -147,10 +161,16 @@ func (f faultyFS) Open(name string) (http.File, error) {
 // ---- outcome function -------------------------------------------------------------
 
 type staticOutcome struct {
-	kind  string // silent | redirect | file | not-modified
-	body  string
-	loc   string
-	exact bool // false: only the safety predicates are judged (odd bytes)
+	kind    string // silent | redirect | file | not-modified
+	body    string
+	loc     string
+	exact   bool   // false: only the safety predicates are judged (odd bytes)
+	denoted string // what the request path denotes in the served tree, before any index is looked up ("" if nothing)
+}
+
+// isIndexName: does the cleaned, slash-rooted name denote an index file (the index option may have several elements)?
+func isIndexName(cleaned, idx string) bool {
+	return cleaned == "/"+idx || strings.HasSuffix(cleaned, "/"+idx)
 }
 
 func staticOracle(fx *fixture, c *staticCase) staticOutcome {
@@ -181,6 +201,17 @@ func staticOracle(fx *fixture, c *staticCase) staticOutcome {
 		return silent
 	}
 	odd := strings.ContainsAny(p, "\x00\\") // how http.Dir treats odd bytes is its business: safety predicates only
+	if c.IOFS && (c.CustomFS || c.Fault != "") {
+		// an io/fs file system opens valid names only: what is left after dropping trailing slashes must be "/" or a
+		// slash-rooted name without empty, "." or ".." elements
+		name := rest
+		if name != "/" {
+			name = strings.TrimRight(name, "/")
+		}
+		if name != "/" && !fs.ValidPath(strings.TrimPrefix(name, "/")) {
+			return staticOutcome{kind: "silent", exact: !odd}
+		}
+	}
 	cleaned := path.Clean("/" + rest)
 	if strings.Contains(cleaned, "\x00") {
 		return staticOutcome{kind: "silent", exact: !odd || true}
@@ -193,13 +224,11 @@ func staticOracle(fx *fixture, c *staticCase) staticOutcome {
 	if c.Fault == "stat" {
 		return silent
 	}
-	if c.Fault == "index-stat" && path.Base(cleaned) == idx {
+	if (c.Fault == "index-stat" || c.Fault == "index-open") && isIndexName(cleaned, idx) {
 		return silent
 	}
-	if c.Fault == "index-open" && path.Base(cleaned) == idx {
-		return silent
-	}
-	out := staticOutcome{exact: !odd}
+	out := staticOutcome{exact: !odd, denoted: target}
+	viaIndex := false
 	if fi.IsDir() {
 		cp := path.Clean(p)
 		if !(strings.HasSuffix(p, "/") || strings.HasSuffix(cp, "/")) {
@@ -213,9 +242,10 @@ func staticOracle(fx *fixture, c *staticCase) staticOutcome {
 			return out
 		}
 		target, fi = it, fi2
+		viaIndex = true
 	}
 	out.kind, out.body = "file", fx.files[target]
-	if c.ETag && c.INM == "match" {
+	if c.ETag && (c.INM == "match" || (c.INM == "formula" && !viaIndex)) {
 		out.kind, out.body = "not-modified", ""
 	}
 	return out
@@ -338,7 +368,8 @@ var staticPrefixes = []string{"", "static", "/static", "static/", "/static/", "/
 func genStaticCase(rng *rand.Rand) *staticCase {
 	c := &staticCase{
 		Prefix:     staticPrefixes[rng.Intn(len(staticPrefixes))],
-		Index:      []string{"", "", "home.htm", "b", "missing.html"}[rng.Intn(5)],
+		Index:      []string{"", "", "home.htm", "b", "missing.html", "d2/index.html", "s/one", "dir/index.html"}[rng.Intn(8)],
+		IOFS:       rng.Intn(3) == 0,
 		ETag:       rng.Intn(2) == 0,
 		Headers:    rng.Intn(2) == 0,
 		Logging:    rng.Intn(4) == 0,
@@ -355,7 +386,7 @@ func genStaticCase(rng *rand.Rand) *staticCase {
 		c.Fault = []string{"open", "stat", "index-open", "index-stat"}[rng.Intn(4)]
 	}
 	if c.ETag && rng.Intn(3) == 0 {
-		c.INM = []string{"match", "other"}[rng.Intn(2)]
+		c.INM = []string{"match", "other", "formula"}[rng.Intn(3)]
 	}
 	normPrefix := ""
 	if c.Prefix != "" {
@@ -427,6 +458,10 @@ func judgeStatic(w *core.W, fx *fixture, c *staticCase, classes func(string)) {
 	if c.CustomFS || c.Fault != "" {
 		opts.Directory = filepath.Join(fx.root, "pubx") // must be ignored when FileSystem is set
 		var fsys http.FileSystem = http.Dir(fx.pub)
+		if c.IOFS {
+			fsys = http.FS(os.DirFS(fx.pub))
+			w.Count("filesystem:io/fs")
+		}
 		if c.Fault != "" {
 			fsys = faultyFS{inner: fsys, mode: c.Fault, index: idx}
 		}
@@ -453,7 +488,19 @@ func judgeStatic(w *core.W, fx *fixture, c *staticCase, classes func(string)) {
 	}
 	want := staticOracle(fx, c)
 	hdr := http.Header{}
-	if c.INM != "" {
+	if c.INM == "formula" {
+		// the tag the middleware's formula gives for what the path denotes (size, base name, modification time)
+		tag := `"nothing-there"`
+		if want.denoted != "" {
+			if st, err := os.Stat(want.denoted); err == nil {
+				tag = `"` + base64.StdEncoding.EncodeToString([]byte(fmt.Sprintf("%d%s%s", st.Size(), st.Name(), st.ModTime().UTC().Format(http.TimeFormat)))) + `"`
+				if st.IsDir() {
+					w.Count("if-none-match:formula-tag-of-a-directory")
+				}
+			}
+		}
+		hdr.Set("If-None-Match", tag)
+	} else if c.INM != "" {
 		tag := `"other"`
 		if c.INM == "match" && want.kind == "not-modified" {
 			// learn the tag from a plain request first
@@ -541,8 +588,89 @@ func staticClass(fx *fixture, c *staticCase, want staticOutcome) string {
 	return "missing"
 }
 
+// volatileCase: the served tree changes between two requests of one instance (C16: whatever is sent is the
+// content of a file that is there).
+type volatileCase struct {
+	Name   string `json:"file_name"`
+	Then   string `json:"then"` // removed | becomes-directory | rewritten
+	Prefix string `json:"prefix,omitempty"`
+	IOFS   bool   `json:"filesystem_is_an_io_fs,omitempty"`
+}
+
+func judgeVolatile(w *core.W, fx *fixture, c *volatileCase) {
+	w.Eval()
+	full := filepath.Join(fx.pub, c.Name)
+	_ = os.RemoveAll(full)
+	defer os.RemoveAll(full)
+	first := "INSIDE<volatile " + c.Name + "> first content"
+	if err := os.WriteFile(full, []byte(first), 0o644); err != nil {
+		w.R.Inconclusive("cannot write into the fixture: " + err.Error())
+		return
+	}
+	opts := flamego.StaticOptions{Directory: fx.pub, Prefix: c.Prefix, SetETag: true}
+	if c.IOFS {
+		opts.FileSystem = http.FS(os.DirFS(fx.pub))
+	}
+	f := flamego.NewWithLogger(io.Discard)
+	f.Use(flamego.Static(opts))
+	nextRan := false
+	f.NotFound(func() { nextRan = true })
+	p := "/" + c.Name
+	if c.Prefix != "" {
+		p = "/" + strings.Trim(c.Prefix, "/") + p
+	}
+	serve := func(inm string) (*retSpy, bool) {
+		nextRan = false
+		spy := &retSpy{h: http.Header{}}
+		hdr := http.Header{}
+		if inm != "" {
+			hdr.Set("If-None-Match", inm)
+		}
+		f.ServeHTTP(spy, &http.Request{Method: "GET", URL: &url.URL{Path: p}, Header: hdr, RequestURI: p})
+		return spy, nextRan
+	}
+	a, _ := serve("")
+	tag := a.h.Get("ETag")
+	if a.status != 200 || string(a.body) != first || tag == "" {
+		w.Violate("static-volatile", c, fmt.Sprintf("first request: status %d body %q ETag %q", a.status, clip(string(a.body)), tag))
+		return
+	}
+	if b, _ := serve(tag); b.status != 304 {
+		w.Violate("static-volatile", c, fmt.Sprintf("revalidation of the unchanged file: status %d, want 304", b.status))
+		return
+	}
+	switch c.Then {
+	case "removed":
+		_ = os.Remove(full)
+		for _, inm := range []string{tag, ""} {
+			g, next := serve(inm)
+			if g.status != 0 || len(g.body) != 0 || !next {
+				w.Violate("static-volatile", c, fmt.Sprintf("the file is gone, If-None-Match %q: status %d body %q, rest of the chain ran=%v (want: nothing written, chain continues)", inm, g.status, clip(string(g.body)), next))
+				return
+			}
+		}
+	case "becomes-directory":
+		_ = os.Remove(full)
+		_ = os.Mkdir(full, 0o755)
+		g, _ := serve(tag)
+		if g.status != 302 {
+			w.Violate("static-volatile", c, fmt.Sprintf("the name now denotes a directory, If-None-Match carries the old file's tag: status %d, want the redirect to the slash-terminated form", g.status))
+			return
+		}
+	default:
+		second := first + " - rewritten and longer"
+		_ = os.WriteFile(full, []byte(second), 0o644)
+		g, _ := serve(tag)
+		if g.status != 200 || string(g.body) != second {
+			w.Violate("static-volatile", c, fmt.Sprintf("the file was rewritten (other size), If-None-Match carries the old tag: status %d body %q, want 200 with the new content", g.status, clip(string(g.body))))
+			return
+		}
+	}
+	w.Count("volatile:" + c.Then)
+}
+
 func runC16(r *core.Run) {
-	r.Rule("fixture tree with unique content per file: inside pub/{a.txt, dir/{index.html,b}, index.html, 'sp ace', ..x, idx2/home.htm, deep/d2/index.html, static/a.txt, s/t/u.txt, noidx/, diridx/index.html/} and outside {secret.txt, pubx/leak, pub2/a.txt, index.html, a.txt}; requests: 0-5 segments from a pool with .., ., empty, NUL, backslash, %2e%2e, prefix look-alikes (/staticfoo, /static..), doubled and trailing slashes, a 200-fold ../ run; methods GET/HEAD/others/lower-case/empty; options: Prefix in 8 spellings incl. '/', two segments and doubled slashes, Index default/custom/missing, ETag (+If-None-Match match/other), Expires+CacheControl, FileSystem option, faulty FileSystem (Open/Stat failures, also for the index), Directory left unset (default `public` under the working directory), options passed as a slice that the caller overwrites afterwards. Oracle: independent outcome function (path.Clean + os.Stat on the fixture) and the universal predicate that no outside-file marker ever appears; silent = no status, no body, no headers and the rest of the chain ran. non-trivial = distinct (option set, method, path class, path)")
+	r.Rule("fixture tree with unique content per file: inside pub/{a.txt, dir/{index.html,b}, index.html, 'sp ace', ..x, idx2/home.htm, deep/d2/index.html, static/a.txt, s/t/u.txt, noidx/, diridx/index.html/} and outside {secret.txt, pubx/leak, pub2/a.txt, index.html, a.txt}; requests: 0-5 segments from a pool with .., ., empty, NUL, backslash, %2e%2e, prefix look-alikes (/staticfoo, /static..), doubled and trailing slashes, a 200-fold ../ run; methods GET/HEAD/others/lower-case/empty; options: Prefix in 8 spellings incl. '/', two segments and doubled slashes, Index default/custom/missing, ETag (+If-None-Match match/other), Expires+CacheControl, FileSystem option, faulty FileSystem (Open/Stat failures, also for the index), Directory left unset (default `public` under the working directory), options passed as a slice that the caller overwrites afterwards; FileSystem as http.Dir or as http.FS(os.DirFS) (a third of the custom-file-system cases); index names with several elements; If-None-Match carrying the tag the middleware's own formula yields for a directory. A second stream (1500/60000 cases) changes the served tree between two requests of one instance: a file is served, revalidated, then removed / replaced by a directory / rewritten, and requested again with the old tag. Oracle: independent outcome function (path.Clean + os.Stat on the fixture) and the universal predicate that no outside-file marker ever appears; silent = no status, no body, no headers and the rest of the chain ran. non-trivial = distinct (option set, method, path class, path)")
 	r.Assume("no symlinks inside the served tree (the fixture root holds one, `public` -> `pub`, so that the default Directory can be exercised: the process works inside the fixture root) and no Range / If-Modified-Since requests; for paths with NUL or backslash only the safety predicates are judged (how http.Dir treats odd bytes is net/http's business)")
 	fx := newFixture()
 	defer fx.remove()
@@ -553,7 +681,15 @@ func runC16(r *core.Run) {
 		w.Begin("static", c)
 		judgeStatic(w, fx, c, nil)
 	})
-	for _, k := range []string{"class:traversal-in", "class:traversal-out", "class:look-alike", "class:dir-no-slash", "class:dir-slash", "class:dir-no-index-or-missing", "class:file", "class:missing", "class:NUL", "class:other-method", "outcome:file", "outcome:redirect", "outcome:not-modified", "outcome:silent", "fault:open", "fault:stat", "fault:index-open", "fault:index-stat", "directory-option-unset", "options-slice-overwritten-after-creation"} {
+	r.Parallel("volatile", r.N(1500, 60000), func(w *core.W, rng *rand.Rand, i int) {
+		c := &volatileCase{Name: fmt.Sprintf("vol-%d-%d.txt", w.ID, i), Then: []string{"removed", "becomes-directory", "rewritten"}[rng.Intn(3)], Prefix: []string{"", "static", "/s/t/"}[rng.Intn(3)], IOFS: rng.Intn(3) == 0}
+		w.Begin("volatile", c)
+		judgeVolatile(w, fx, c)
+	})
+	for _, k := range []string{"volatile:removed", "volatile:becomes-directory", "volatile:rewritten"} {
+		r.GateCounter(k, 100)
+	}
+	for _, k := range []string{"class:traversal-in", "class:traversal-out", "class:look-alike", "class:dir-no-slash", "class:dir-slash", "class:dir-no-index-or-missing", "class:file", "class:missing", "class:NUL", "class:other-method", "outcome:file", "outcome:redirect", "outcome:not-modified", "outcome:silent", "fault:open", "fault:stat", "fault:index-open", "fault:index-stat", "directory-option-unset", "options-slice-overwritten-after-creation", "filesystem:io/fs", "if-none-match:formula-tag-of-a-directory"} {
 		r.GateCounter(k, 30)
 	}
 	r.Gate("distinct_nontrivial", r.NonTrivialCount(), 5000)
